@@ -18,12 +18,12 @@ import (
 )
 
 type SolverCfg struct {
-	Tier      string
-	Timeout   time.Duration // per solver per obligation
-	FirstTry  time.Duration // z3-new alone first
-	AllSolvers bool         // thorough: run every solver to completion and compare
-	Workers   int
-	Dir       string
+	Tier        string
+	Timeout     time.Duration // per solver per obligation
+	FirstTry    time.Duration // z3-new alone first
+	AllSolvers  bool          // thorough: run every solver to completion and compare
+	Workers     int
+	Dir         string
 	KeepQueries bool
 }
 
